@@ -347,6 +347,7 @@ theorem exec_reach {p : Params} (hp : 0 < p.wait) {s : State} (h : Reach p s) (c
         exact Reach.step r1 (Step.giveup _ i m tok na dl hi (Nat.le_max_right _ _))
     · exact h
   | observe i => exact h
+  | cancelCtx i => exact h
 
 /-- all states of a replay are reachable -/
 def replayStates (p : Params) : State → List Cmd → List State
